@@ -64,45 +64,48 @@ func checkC07(c *Ctx) {
 	// C07.2 monotone gates
 	if updQC != nil {
 		fl := NewFlow(p, updQC)
-		eachInstr(updQC, func(in ssa.Instruction) {
+		// (the store may sit in a private helper that is handed the certificate and the view to compare)
+		for _, d := range deepInstrs(fl, func(in ssa.Instruction) bool {
 			st, ok := in.(*ssa.Store)
 			if !ok {
-				return
+				return false
 			}
 			fa, ok := st.Addr.(*ssa.FieldAddr)
-			if !ok || fieldName(fa.X.Type(), fa.Field) != kVS+"highQC" {
-				return
-			}
-			facts := fl.At(in)
-			val := fl.K.Key(st.Val)
-			ok = val == "p1" && hasCmp(facts, "<", is(kQCView+"p0->"+kVS+"highQC)"), func(k string) bool {
+			return ok && fieldName(fa.X.Type(), fa.Field) == kVS+"highQC"
+		}, 0) {
+			in := d.Instr
+			st := in.(*ssa.Store)
+			facts := d.Facts
+			val := d.Key(st.Val)
+			ok := val == "p1" && hasCmp(facts, "<", is(kQCView+"p0->"+kVS+"highQC)"), func(k string) bool {
 				// view of the block the new QC certifies (looked up by the QC's hash), or the QC's own view
 				return (strings.HasPrefix(k, kBlockView+kBCGet) && strings.Contains(k, kQCHash+"p1)")) || k == kQCView+"p1)"
 			})
 			c.Check(ok, "C07.2", "UpdateHighQC: strictly higher", p.InstrPos(in),
 				"highQC := qc only under highQC.View() < view of the newly certified block",
 				"store of "+val+" not gated by a strict view increase; facts: "+join(facts.Sorted()))
-		})
+		}
 	} else {
 		c.Unresolved("C07.2", "UpdateHighQC", "anchor missing")
 	}
 	if updTC != nil {
 		fl := NewFlow(p, updTC)
-		eachInstr(updTC, func(in ssa.Instruction) {
+		for _, d := range deepInstrs(fl, func(in ssa.Instruction) bool {
 			st, ok := in.(*ssa.Store)
 			if !ok {
-				return
+				return false
 			}
 			fa, ok := st.Addr.(*ssa.FieldAddr)
-			if !ok || fieldName(fa.X.Type(), fa.Field) != kVS+"highTC" {
-				return
-			}
-			facts := fl.At(in)
-			val := fl.K.Key(st.Val)
-			ok = val == "p1" && hasCmp(facts, "<", is(kTCView+"p0->"+kVS+"highTC)"), is(kTCView+"p1)"))
+			return ok && fieldName(fa.X.Type(), fa.Field) == kVS+"highTC"
+		}, 0) {
+			in := d.Instr
+			st := in.(*ssa.Store)
+			facts := d.Facts
+			val := d.Key(st.Val)
+			ok := val == "p1" && hasCmp(facts, "<", is(kTCView+"p0->"+kVS+"highTC)"), is(kTCView+"p1)"))
 			c.Check(ok, "C07.2", "UpdateHighTC: strictly higher", p.InstrPos(in),
 				"highTC := tc only under highTC.View() < tc.View()", "store of "+val+" not gated; facts: "+join(facts.Sorted()))
-		})
+		}
 	} else {
 		c.Unresolved("C07.2", "UpdateHighTC", "anchor missing")
 	}
@@ -114,17 +117,24 @@ func checkC07(c *Ctx) {
 	// C07.4 advanceView gates
 	if adv != nil && nextView != nil && updQC != nil {
 		fl := NewFlow(p, adv)
-		var vsi ssa.CallInstruction
-		for _, s := range callsIn(adv, false, func(cc *ssa.CallCommon) bool { return cc.IsInvoke() && cc.Method.Name() == "VerifySyncInfo" }) {
-			vsi = s
+		// (the verification may sit in a private helper that reports the verified view, the timeout flag and
+		// whether the verification succeeded: its results then stand for those of VerifySyncInfo)
+		vk := ""
+		for _, d := range deepInstrs(fl, func(in ssa.Instruction) bool {
+			call, ok := in.(*ssa.Call)
+			return ok && call.Call.IsInvoke() && call.Call.Method.Name() == "VerifySyncInfo"
+		}, 0) {
+			vk = d.Key(d.Instr.(*ssa.Call))
 		}
-		if vsi == nil {
+		if vk == "" {
 			c.Unresolved("C07.4", "advanceView", "no VerifySyncInfo call")
 		} else {
-			vk := fl.K.Key(vsi.Value())
 			for _, ds := range deepSites(fl, func(cc *ssa.CallCommon) bool { return calleeIs(cc, nextView) }, 0) {
 				s := ds.Site
 				facts := ds.Facts
+				if ds.In == adv {
+					facts = aliasHelperResults(fl, facts)
+				}
 				ok1 := errNilOf(facts, is(vk+"#3"))
 				ok2 := hasCmp(facts, "<=", func(k string) bool { return strings.HasPrefix(k, "(*hs/protocol.ViewStates).View(") }, is(vk+"#1"))
 				c.Check(ok1, "C07.4/verified", "advanceView->NextView", p.Pos(s.Pos()),
